@@ -126,6 +126,42 @@ def stats(d):
                 well_formed=wf, boundary_or_malformed=len(d["flags"]) - wf)
 
 
+def conc_stage(ctx, exe, model, count):
+    """Coarse-schedule runs of reader x committer on the real code vs Cache/Conc.v under both orderings."""
+    work = ctx.work
+    rc, out = core.sh([exe, "conc", str(ctx.seed), str(count), work], timeout=1700)
+    if rc != 0:
+        raise RuntimeError("cache conc failed: " + out[-2000:])
+    inp = open(os.path.join(work, "conc.in")).read()
+    impl = [l.strip() for l in open(os.path.join(work, "conc.impl")).read().splitlines()]
+    rc, out = core.run_lines(model, inp, timeout=1700)
+    ml = out.splitlines()
+    O = [l[1:].strip() for l in ml if l.startswith("O")]
+    F = [l[1:].strip() for l in ml if l.startswith("F")]
+    cases = inp.splitlines()
+
+    def strip_ghost(l):
+        return " ".join(x if ":" not in x else ":".join(x.split(":")[:2]) for x in l.split())
+
+    def incoherent(l):
+        for x in l.split():
+            if ":" in x:
+                p = x.split("=")[1].split(":")
+                if len(p) == 3 and p[1] != p[2]:
+                    return True
+        return False
+
+    n = len(cases)
+    bad_o = [i for i in range(n) if i >= len(O) or impl[i] != strip_ghost(O[i])]
+    bad_f = [i for i in range(n) if i >= len(F) or impl[i] != strip_ghost(F[i])]
+    variant = "original" if not bad_o else ("repaired" if not bad_f else "neither")
+    ref = O if variant == "original" else F
+    inc = [i for i in range(min(n, len(ref))) if incoherent(ref[i])] if variant != "neither" else []
+    return dict(n=n, variant=variant, bad_original=bad_o[:5], bad_repaired=bad_f[:5], n_bad_original=len(bad_o),
+                n_bad_repaired=len(bad_f), incoherent=inc, cases=cases, impl=impl, O=O, F=F,
+                gated=sum(1 for l in impl if "gated=1" in l))
+
+
 def run_f1(exe):
     rc, out = core.sh([exe, "f1", "3"], timeout=300)
     lines = [l for l in out.splitlines() if l.startswith("F1 ")]
@@ -151,8 +187,22 @@ def run(ctx):
         d = differential(ctx, exe, model, count=3000 if ctx.quick else 120000)
     corr_ok = not d["model_diffs"]
 
-    # the concurrent half on the real code: deterministic F1 window
+    # the concurrent half on the real code: coarse schedules vs Cache/Conc.v, deterministic F1 window
+    cs = conc_stage(ctx, exe, model, 2000 if ctx.quick else 40000)
+    core.log("conc: %d schedules (%d with a held database fetch); the code follows the `%s` ordering of Cache/Conc.v; %d runs end with a cached slot different from the committed value"
+             % (cs["n"], cs["gated"], cs["variant"], len(cs["incoherent"])))
+    if cs["variant"] == "neither":
+        i = (cs["bad_original"] or [0])[0]
+        d["model_diffs"].append(dict(case=i, side="reader x committer vs Cache/Conc.v (neither ordering matches)",
+                                     conc_case=cs["cases"][i], impl=cs["impl"][i],
+                                     model_original=cs["O"][i] if i < len(cs["O"]) else None,
+                                     model_repaired=cs["F"][i] if i < len(cs["F"]) else None))
+        corr_ok = False
     f1_rep, f1_lines, f1_rc = run_f1(exe)
+    if cs["incoherent"]:
+        i = cs["incoherent"][0]
+        f1_lines = f1_lines + ["conc witness: %s => %s (model: cached:answer:committed %s)" % (cs["cases"][i], cs["impl"][i], (cs["O"] if cs["variant"] == "original" else cs["F"])[i])]
+        f1_rep = True
     for l in f1_lines:
         core.log(l)
     if f1_rc not in (0, 10):
@@ -196,6 +246,9 @@ def run(ctx):
         rule="seeded histories (1..3 blocks of commits built from synthetic finalised EvmStates: create, destroy, recreate, destroy-again, empty-touch, LoadedEmptyEIP161, storage churn; increments, drains, reads of accounts/slots/code through Database, DatabaseRef and the worker view; merge_transitions / parallel_take_bundle with both retentions, take_bundle, re-injected bundles; final read-back of everything) run on the REAL ParallelState, the REAL revm State and both extracted models; non-trivial = distinct history with a destruction or re-creation transition, a slot read and a merge",
         distribution=st,
         f1=dict(reproduced_on_real_code=f1_rep, lines=f1_lines, listed_as_known=known_f1),
+        conc=dict(schedules=cs["n"], with_held_fetch=cs["gated"], ordering_followed_by_code=cs["variant"],
+                  mismatches_vs_original=cs["n_bad_original"], mismatches_vs_repaired=cs["n_bad_repaired"],
+                  runs_ending_incoherent=len(cs["incoherent"])),
         samples=[dict(case=d["cases"][i][:700], par=d["par"][i][:500], model=d["P"][i][:500]) for i in range(min(2, len(d["cases"])))],
     )
     return ctx.finish("proof", cov, [
